@@ -932,11 +932,25 @@ static int send_frame(const struct websocket *s, uint8_t *payload, size_t length
 	uint8_t *payload_comp = NULL;
 	size_t length_comp = length;
 	uint8_t rsv = 0x00;
-	if (s->extension_compression.accepted && (type < WS_CLOSE_FRAME)) {
+	/*
+	 * websocket_compress() needs an output buffer of 2 * length bytes; that is only enough
+	 * for the deflate block framing if the message is not tiny. Tiny messages, and messages
+	 * that cannot be compressed for whatever reason, go out uncompressed (RFC 7692, 6.).
+	 */
+	static const size_t MIN_LENGTH_TO_COMPRESS = 32;
+	if (s->extension_compression.accepted && (type < WS_CLOSE_FRAME) && (length >= MIN_LENGTH_TO_COMPRESS)) {
 		payload_comp = malloc(length * 2);
-		length_comp = websocket_compress(s, payload_comp, payload, length);
-		rsv = 0x40;
-		payload_ptr = payload_comp;
+		if (payload_comp != NULL) {
+			int compressed = websocket_compress(s, payload_comp, payload, length);
+			if (compressed >= 0) {
+				length_comp = (size_t)compressed;
+				rsv = 0x40;
+				payload_ptr = payload_comp;
+			} else {
+				free(payload_comp);
+				payload_comp = NULL;
+			}
+		}
 	}
 
 	ws_header[0] = (uint8_t)(type | WS_HEADER_FIN | rsv);
@@ -972,9 +986,7 @@ static int send_frame(const struct websocket *s, uint8_t *payload, size_t length
 
 	struct buffered_reader *br = &s->connection->br;
 	int ret =  br->writev(br->this_ptr, iov, ARRAY_SIZE(iov));
-	if (s->extension_compression.accepted && (type < WS_CLOSE_FRAME)) {
-		free(payload_comp);
-	}
+	free(payload_comp);
 	return ret;
 }
 
